@@ -50,7 +50,15 @@ def replay(r):
     W = e - start
     kw = dict(start=start, end=end, batch_size=bs, device="cpu")
     try:
-        if r.get("history"):
+        if r.get("history") == "window":
+            # an earlier call on same-shaped sequences with another window of the same width
+            class Mw(torch.nn.Module):
+                def forward(self, X):
+                    return X.sum(dim=(1, 2))[:, None].repeat(1, 2)
+            prevs = [r["start_prev"]] if r.get("start_prev") is not None else [s2 for s2 in range(0, L - W + 1) if s2 != start]
+            for s2 in prevs:
+                saturation_mutagenesis(Mw(), X.clone(), raw_outputs=True, start=s2, end=s2 + W, batch_size=bs, device="cpu")
+        elif r.get("history"):
             class Mh(torch.nn.Module):
                 def forward(self, X):
                     return X.sum(dim=(1, 2))[:, None].repeat(1, 2)
@@ -124,11 +132,22 @@ def worker(cfg):
         shapes = [tuple(s_) for s_ in cfg["shapes"]]
         model = UFModel(len(shapes), "tuple" if kind == "tuple" else "tensor", out_shapes=shapes)
 
+        s_prev = None
+        if cfg.get("history") == "window":
+            s_prev = core.Int("start_prev")
+            ctx.assume(s_and(s_prev >= 0, s_prev + (end - start) <= L, s_prev != start))
+
         def rp(m):
-            return dict(cfg, x=C.eval_chars(m, xc), start=core.model_value(m, start), end=core.model_value(m, end), batch_size=core.model_value(m, bs))
+            return dict(cfg, x=C.eval_chars(m, xc), start=core.model_value(m, start), end=core.model_value(m, end), batch_size=core.model_value(m, bs),
+                        **({"start_prev": core.model_value(m, s_prev)} if s_prev is not None else {}))
         kw = dict(start=start, end=end, batch_size=bs, device="cpu")
         try:
-            if cfg.get("history"):
+            if cfg.get("history") == "window":
+                # an earlier call on same-shaped sequences with ANOTHER window of the same width
+                xh = C.sym_chars(ctx, "xh", (B, L), A)
+                ism.saturation_mutagenesis(UFModel(1, "tensor", out_shapes=[(2,)]), C.onehot_from_chars(xh, A, dtype="float32"), raw_outputs=True,
+                                           start=s_prev, end=s_prev + (end - start), batch_size=bs, device="cpu")
+            elif cfg.get("history"):
                 # an earlier call on the same window with a smaller alphabet (results must not depend on the call history)
                 xh = C.sym_chars(ctx, "xh", (1, L), A - 1)
                 ism.saturation_mutagenesis(UFModel(1, "tensor", out_shapes=[(2,)]), C.onehot_from_chars(xh, A - 1, dtype="float32"), raw_outputs=True, **kw)
@@ -139,10 +158,10 @@ def worker(cfg):
             m = ctx.model() if ctx.check() == z3.sat else None
             out["violations"].append(C.violation("ism:raises", "saturation_mutagenesis raised %s: %s" % (type(e).__name__, e), rp(m), replay))
             return "raised"
-        mdl = ctx.model() if ctx.check() == z3.sat else None
-        sv, ev = core.model_value(mdl, s_), core.model_value(mdl, e_)
-        if ctx.prove(s_and(s_ == sv, e_ == ev), "window concretised") is not None:
-            raise core.Inconclusive("window not determined on this path")
+        # the window is normally pinned by the code's own indexing; where it is not (e.g. coordinates taken from elsewhere),
+        # fork on its values here so that every window is still judged
+        sv = s_.__index__() if isinstance(s_, core.Sym) else s_
+        ev = e_.__index__() if isinstance(e_, core.Sym) else e_
         Wn = ev - sv
         outs0 = [y0] if kind == "tensor" else list(y0)
         outsh = [yh] if kind == "tensor" else list(yh)
@@ -244,6 +263,8 @@ def configs(tier):
                     cf.append(dict(A=A, B=B, L=L, kind=kind, n_args=n_args, window=window, shapes=oshapes, targets=targets))
     cf.append(dict(A=3, B=1, L=3, kind="tensor", n_args=0, window="sym", shapes=[[3]], targets=[None], history=True))
     cf.append(dict(A=3, B=1, L=3, kind="tensor", n_args=0, window="default", shapes=[[3]], targets=[1], history=True))
+    cf.append(dict(A=2, B=1, L=4, kind="tensor", n_args=0, window="sym", shapes=[[3]], targets=[None], history="window"))
+    cf.append(dict(A=3, B=2, L=3, kind="tuple", n_args=0, window="sym", shapes=[[2], [3]], targets=[], history="window"))
     return cf
 
 
